@@ -62,7 +62,9 @@ def strategy(tier):
                     lo, hi = lo - 0.1, hi + 0.1
                 pars = [S.sig(math.log10(lo), 5), S.sig(math.log10(hi), 5)] if log else [S.sig(lo, 4), S.sig(hi, 4)]
             elif fam == "gamma":
-                shape = draw(st.sampled_from([20.0, 40.0]))
+                # concentrated, or broad with real mass next to zero (where the perturbation kernel proposes negative values
+                # that the prior has to veto)
+                shape = draw(st.sampled_from([20.0, 40.0, 1.5, 3.0]))
                 pars = [shape, S.sig(shape / v, 5)]
             else:
                 pars = [S.sig(v, 4), S.sig(0.08 * abs(v) + (0.02 if abs(v) < 1e-3 else 0.0), 3)]
